@@ -32,7 +32,7 @@ from workflows.runtime.types.plugin import (
     InternalRunAdapter,
     V2RuntimeCompatibilityShim,
 )
-from workflows.runtime.types.ticks import WorkflowTick
+from workflows.runtime.types.ticks import TickIdleCheck, WorkflowTick
 from workflows.workflow import Workflow
 
 from .._keyed_lock import KeyedLock
@@ -59,12 +59,27 @@ class _IdleReleaseInternalRunAdapter(BaseInternalRunAdapterDecorator):
         self._store = store
 
     @override
+    async def on_tick(self, tick: WorkflowTick) -> None:
+        # Any tick other than the idle check itself means the run is working
+        # again: an event that was already in the mailbox when the idle event
+        # was published, a waiter timeout, a delayed retry. Drop the idle stamp,
+        # otherwise the pending release timer aborts the run in mid-step.
+        if (
+            not isinstance(tick, TickIdleCheck)
+            and self.run_id in self._runtime._idle_run_ids
+        ):
+            self._runtime._idle_run_ids.discard(self.run_id)
+            await self._store.update_handler_status(self.run_id, idle_since=None)
+        await super().on_tick(tick)
+
+    @override
     async def write_to_event_stream(self, event: Event) -> None:
         if isinstance(event, WorkflowIdleEvent):
             idle_since = datetime.now(timezone.utc)
             await self._store.update_handler_status(
                 self.run_id, status="running", idle_since=idle_since
             )
+            self._runtime._idle_run_ids.add(self.run_id)
         await super().write_to_event_stream(event)
         if isinstance(event, WorkflowIdleEvent):
             self._runtime._spawn_task(self._runtime._deferred_release(self.run_id))
@@ -125,6 +140,9 @@ class IdleReleaseDecorator(BaseRuntimeDecorator):
         self._persistence: TickPersistenceDecorator = decorated
         self._reload_lock = KeyedLock()
         self._active_run_ids: set[str] = set()
+        # runs whose last engine announcement was WorkflowIdleEvent and that have
+        # not processed a tick since
+        self._idle_run_ids: set[str] = set()
         self._background_tasks: set[asyncio.Task[None]] = set()
         self.stop_task: asyncio.Task[None] | None = None
         self._idle_timeout = idle_timeout
@@ -182,6 +200,9 @@ class IdleReleaseDecorator(BaseRuntimeDecorator):
                 return
             if run_id not in self._active_run_ids:
                 return
+            if run_id not in self._idle_run_ids:
+                return
+            self._idle_run_ids.discard(run_id)
             self._active_run_ids.discard(run_id)
             self._abort_inner_run(run_id)
             logger.info(f"Released idle handler [run_id={run_id}] from memory")
